@@ -113,6 +113,10 @@ def encode_opts(kw):
     for o in OPT_ALL:
         if kw.get(o) is True and r.random() < 0.4:
             kw[o] = np.True_ if r.random() < 0.5 else 1
+        elif o not in kw and r.random() < 0.15:
+            # an option that is OFF written out: False, 0, numpy.False_, or None (`settings.get(name)` of a
+            # missing key)
+            kw[o] = r.choice((False, None, None, 0, np.False_))
     return kw
 
 
